@@ -7,12 +7,18 @@
    * every square-root entry is within 1 of 65536·√(i/256 + 31/2^18)              (256 kernel points)
    * sin_angle_aprox(d), cos_angle_aprox(d) for EVERY 32-bit d: no out-of-bounds access, the result is the
      table entry of d mod 360, hence within 2 ulp of sin/cos(d°)                   (analytic + periodicity)
-  Partial (stated, tied by correspondence only; see `C19_sqrt_aprox_full`, `C19_atan_index_full`):
-   * sqrt_aprox relative error ≤ 2 % on [1, 2^37) raw ; atan_index_aprox within 1.25 of atan(x)·128/π.
-     Proved for them: sqrt_aprox(0) = 0, NaN below 0.
+   * sqrt_aprox(x): relative error ≤ 2 % for EVERY raw x in [1, 2^37) (closed form of the cell selection from the bit
+     length + kernel check of all 1 567 cells at both ends, `C19_sqrt_aprox`); 0 at 0, NaN below 0.
+   * atan_index_aprox(x) within 1.25 of atan(x)·128/π for EVERY raw x (`C19_atan_index`): invariant of
+     std::lower_bound incl. the out-of-order sentinel entry 128, closed form, kernel check of the arctangent of all
+     254 entries against their angles, monotone arctan.
 -/
 import FixedMath.Real.TanSound
 import FixedMath.Proofs.SinReduce
+import FixedMath.Proofs.TabLemmas
+import FixedMath.Proofs.SqrtAprox
+import FixedMath.Real.AtanIndexAcc
+import Mathlib.Analysis.Real.Sqrt
 
 namespace FixedMath
 open Gen R Chk Real
@@ -28,10 +34,6 @@ theorem tanTab_checked : checkTanTab 0 tan_tableL = true := by decide +kernel
 set_option maxRecDepth 10000000 in
 theorem sqrtTab_checked : checkSqrtTab 0 square_root_tableL = true := by decide +kernel
 
-theorem sinTab_len : sin_angle_tableL.length = 361 := by decide +kernel
-theorem cosTab_len : cos_angle_tableL.length = 361 := by decide +kernel
-theorem tanTab_len : tan_tableL.length = 256 := by decide +kernel
-theorem sqrtTab_len : square_root_tableL.length = 256 := by decide +kernel
 
 theorem C19_sin_tab (i : Nat) (h : i < 361) :
     |(sin_angle_tableL.getD i 0 : ℝ) / 65536 - Real.sin ((i : ℝ) * π / 180)| ≤ 2 / 65536 := by
@@ -56,17 +58,6 @@ theorem C19_sqrt_tab (i : Nat) (h : i < 256) :
   have := checkSqrtTab_sound square_root_tableL 0 sqrtTab_checked i (by rw [sqrtTab_len]; exact h)
   rw [Nat.zero_add] at this
   exact checkSqrtEntry_sound i _ this
-
-/-- array access of the model agrees with the list the theorems talk about -/
-theorem idx_table (L : List Int) (i : Nat) (h : i < L.length) : idx L.toArray (i : Int) = .ok (L.getD i 0) := by
-  unfold idx
-  have : (0 : Int) ≤ (i : Int) ∧ (i : Int) < (L.toArray.size : Int) := by
-    constructor
-    · omega
-    · simp; exact_mod_cast h
-  rw [if_pos this]
-  simp [List.getD_eq_getElem?_getD, h]
-  rfl
 
 /-- the index computed by `sin_angle_aprox` / `cos_angle_aprox` for any 32-bit angle -/
 theorem angle_index (d : Int) (h1 : -2147483648 ≤ d) (h2 : d ≤ 2147483647) :
@@ -139,13 +130,41 @@ theorem C19_sqrt_aprox_edge : (sqrtAprox 0 ⇓ 0) ∧ ∀ v : Int, v < 0 → sqr
   have h1 : v ≤ 0 := by omega
   rw [if_pos h1, if_pos hv]; rfl
 
-/-- full statements of the two remaining clauses (not proved here; tied by the correspondence suite of C19,
-    which enumerates cell boundaries, and checked by the executable oracle on every run) -/
-def C19_sqrt_aprox_full : Prop :=
-  ∀ v : Int, 1 ≤ v → v < 137438953472 →
-    ∃ r, (sqrtAprox v ⇓ r) ∧ |(r : ℝ) - Real.sqrt ((v : ℝ) * 65536)| ≤ 2 / 100 * Real.sqrt ((v : ℝ) * 65536)
-def C19_atan_index_full : Prop :=
-  ∀ v : Int, -140737488355328 < v → v < 140737488355328 →
-    ∃ r, (atanIndexAprox v ⇓ r) ∧ |(r : ℝ) / 65536 - Real.arctan ((v : ℝ) / 65536) * 128 / π| ≤ 125 / 100
+/-- **sqrt_aprox has relative error at most 2 %** for every raw argument in [1, 2^37) (2^-16 ≤ x < 2^21):
+    closed form of the cell selection for all arguments + kernel check of all 1 567 cells at both cell ends -/
+theorem C19_sqrt_aprox (v : Int) (h0 : 1 ≤ v) (h1 : v < 137438953472) :
+    ∃ r, (sqrtAprox v ⇓ r) ∧ |(r : ℝ) - Real.sqrt ((v : ℝ) * 65536)| ≤ 2 / 100 * Real.sqrt ((v : ℝ) * 65536) := by
+  obtain ⟨r, hr, hr0, hhi, hlo⟩ := sqrtAprox_acc v h0 h1
+  refine ⟨r, hr, ?_⟩
+  set T : ℝ := Real.sqrt ((v : ℝ) * 65536) with hT
+  have hv0 : (0 : ℝ) ≤ (v : ℝ) * 65536 := by
+    have : (0 : ℝ) ≤ (v : ℝ) := by exact_mod_cast (by omega : (0 : Int) ≤ v)
+    positivity
+  have hT0 : 0 ≤ T := Real.sqrt_nonneg _
+  have hTT : T * T = (v : ℝ) * 65536 := Real.mul_self_sqrt hv0
+  have hrr : (0 : ℝ) ≤ (r : ℝ) := by exact_mod_cast hr0
+  have a : (100 * (r : ℝ)) * (100 * (r : ℝ)) ≤ 10404 * (T * T) := by
+    rw [hTT]; have : (((100 * r) * (100 * r) : Int) : ℝ) ≤ ((10404 * 65536 * v : Int) : ℝ) := by exact_mod_cast hhi
+    push_cast at this; linarith
+  have b : 9604 * (T * T) ≤ (100 * (r : ℝ)) * (100 * (r : ℝ)) := by
+    rw [hTT]; have : ((9604 * 65536 * v : Int) : ℝ) ≤ (((100 * r) * (100 * r) : Int) : ℝ) := by exact_mod_cast hlo
+    push_cast at this; linarith
+  have hup : 100 * (r : ℝ) ≤ 102 * T := by
+    by_contra hc; push Not at hc; nlinarith
+  have hdn : 98 * T ≤ 100 * (r : ℝ) := by
+    by_contra hc; push Not at hc; nlinarith
+  rw [abs_le]; constructor <;> linarith
+
+example : (1 : Int) ≤ 12345 ∧ (12345 : Int) < 137438953472 := by omega
+
+/-- **atan_index_aprox(x) is within 1.25 of atan(x)·128/π** for EVERY raw argument (the property asks for |x| < 2^31):
+    binary-search invariant of `std::lower_bound` (valid although the second half of the table starts with an
+    out-of-order sentinel), closed form of the result, kernel check that the arctangent of every table entry is
+    within 10/65536 rad of its angle (sin/cos enclosures), monotonicity of arctan -/
+theorem C19_atan_index (v : Int) (h1 : -9223372036854775808 < v) (h2 : v ≤ 9223372036854775807) :
+    ∃ r, (atanIndexAprox v ⇓ r) ∧ |(r : ℝ) / 65536 - Real.arctan ((v : ℝ) / 65536) * 128 / π| ≤ 125 / 100 :=
+  atanIndex_acc v ⟨h1, h2⟩
+
+example : (-9223372036854775808 : Int) < -5344829 ∧ (-5344829 : Int) ≤ 9223372036854775807 := by omega
 
 end FixedMath
